@@ -30,6 +30,16 @@
    stays there -- and so do the later syncs, for as long as the subscriber keeps that publisher's sync client; the faults of
    the plan sit on the first address.
 
+   A legacy publisher (cfg.mode = "legacy"): a request under the IPNI path is answered 404 by the publisher itself and
+   repeated by the client without the IPNI path (the probe); when THAT request is answered 200 the publisher's sync client keeps
+   to path-less URLs from then on (Probes, below).  The fault plan counts the requests that reach the publisher's
+   content (the repeated one, not the probe): whatever the plan does to it, the outcome is that of the same fault against a
+   publisher of today -- in particular a body that does not hash to the CID asked for is refused on this way too.
+
+   A second announcement (cfg.pend): while the request the plan faults is being answered, the same publisher announces another
+   head -- one it does not have (Off), so that the sync waiting behind the failing one fails as well, with an error notification of
+   its own, and changes nothing.  The failing sync must still un-cache ITS head: the clean announcement of it afterwards is acted on.
+
    A depth limit (cfg.depth > 0, the subscriber's AdsDepthLimit): the walk covers the head and the depth - 1 blocks before it,
    and a segmented sync then ends with the segment that uses the limit up -- whose hooks count like any other's.
 
@@ -41,8 +51,10 @@ EXTENDS Integers, Sequences, FiniteSets, TLC, VerifIO
 CONSTANTS N, Segs, Kinds, MaxFaulty, FIXED, EXPORT,
           PairKinds,    \* kinds of a second fault at the very next request of the same sync ({}: single faults only)
           MaxAddrs,     \* 1, or 2: the publisher may be given with a second address (plain HTTP) the client can fail over to
-          Depths        \* depth limits of the subscriber (0: none)
-Modes == {"plain", "libp2p"}
+          Depths,       \* depth limits of the subscriber (0: none)
+          Pends         \* {FALSE}, or {FALSE, TRUE}: while the faulty request is being answered, another head of the same publisher is announced
+Modes == {"plain", "libp2p",
+          "legacy"}     \* a plain-HTTP publisher of the time before the IPNI path: it serves /head and /<cid> and answers 404 under /ipni/v1/ad
 Triggers == {"explicit", "announce"}
 BodyKinds == {"bitflip", "truncated", "appended", "other", "empty", "oversized"}
 
@@ -61,10 +73,13 @@ Faults == [at : 0..(N + 1), kind : Kinds, k2 : PairKinds \cup {"none"}]      \* 
 (* at = 0: the discovery requests that precede a publisher's first sync when it is reached through libp2p-HTTP discovery
    (/.well-known/libp2p/...).  Whatever happens to them, the client falls back to plain HTTP and the sync goes ahead.     *)
 DiscoveryKinds == {"reset", "s500", "s404"}
-Configs == {[mode |-> m, trigger |-> t, seg |-> s, addrs |-> a, depth |-> d, faults |-> f] :
-              m \in Modes, t \in Triggers, s \in Segs, a \in 1..MaxAddrs, d \in Depths, f \in UNION {[1..k -> Faults] : k \in 1..MaxFaulty}}
+Configs == {[mode |-> m, trigger |-> t, seg |-> s, addrs |-> a, depth |-> d, pend |-> q, faults |-> f] :
+              m \in Modes, t \in Triggers, s \in Segs, a \in 1..MaxAddrs, d \in Depths, q \in Pends, f \in UNION {[1..k -> Faults] : k \in 1..MaxFaulty}}
 FailOverKinds == {"reset", "stall"}      \* the request itself fails (no response): the client moves on to the next address
 Applicable(c) == /\ (c.addrs = 2 => c.mode = "plain")
+                 /\ (c.pend => (c.trigger = "announce" /\ c.addrs = 1 /\ c.depth = 0 /\ c.mode # "legacy"
+                                 /\ \A i \in 1..Len(c.faults) : c.faults[i].at >= 1 /\ c.faults[i].k2 = "none" /\ c.faults[i].kind \notin {"hookfail", "hookcancel", "cancel"}))
+                 /\ (c.mode = "legacy" => (c.addrs = 1 /\ c.depth = 0 /\ \A i \in 1..Len(c.faults) : c.faults[i].k2 = "none"))
                  /\ (c.depth > 0 => (c.seg > 0 /\ c.addrs = 1 /\ \A i \in 1..Len(c.faults) : c.faults[i].k2 = "none"))   \* depth limits: segmented syncs, single faults
                  /\ \A i \in 1..Len(c.faults) : c.faults[i].at = 0 => (c.mode = "libp2p" /\ c.faults[i].kind \in DiscoveryKinds /\ c.faults[i].k2 = "none")
                  /\ \A i \in 1..Len(c.faults) :
@@ -81,6 +96,7 @@ Init == /\ cfg \in {c \in Configs : Applicable(c)}
         /\ phase = 1 /\ pc = "start" /\ b = 0 /\ req = 0 /\ segblocks = <<>> /\ segleft = 0 /\ over = FALSE /\ ctxdead = FALSE
         /\ store = {} /\ latest = 0 /\ cached = FALSE /\ noPath = FALSE /\ rep = <<>> /\ log = <<>>
 
+Off == N + 1      \* a CID the publisher does not have
 Clean == phase > Len(cfg.faults)
 Within(x) == cfg.depth = 0 \/ N - x < cfg.depth          \* block x is within the depth limit counted from the head
 FaultAt(r) == IF Clean \/ over THEN "ok"
@@ -107,7 +123,9 @@ Fail(k) ==    \* the sync ends with an error
   /\ noPath' = (noPath \/ (~FIXED /\ cfg.mode = "plain" /\ k \in {"s404", "s403"}))
   /\ UNCHANGED <<latest, store>>
   /\ IF cfg.trigger = "announce"
-     THEN cached' = FALSE /\ EndSyncO("error", <<[cid |-> N, err |-> TRUE, count |-> 0]>>, over \/ Burns(k))
+     THEN /\ cached' = FALSE        \* the failed head may be announced again -- also when another announcement is waiting behind it
+          /\ EndSyncO("error", IF cfg.pend THEN <<[cid |-> N, err |-> TRUE, count |-> 0], [cid |-> Off, err |-> TRUE, count |-> 0]>>
+                                           ELSE <<[cid |-> N, err |-> TRUE, count |-> 0]>>, over \/ Burns(k))
      ELSE UNCHANGED cached /\ EndSyncO("error", <<>>, over \/ Burns(k))
 
 Start ==
@@ -192,7 +210,8 @@ FailureIsClean ==
   \A i \in 1..Len(log) : log[i].result = "error" =>
      /\ log[i].latest = (IF i = 1 THEN 0 ELSE log[i - 1].latest)
      /\ (cfg.trigger = "explicit" => log[i].events = <<>>)
-     /\ (cfg.trigger = "announce" => Len(log[i].events) = 1 /\ log[i].events[1].err)
+     /\ (cfg.trigger = "announce" => /\ Len(log[i].events) = (IF cfg.pend THEN 2 ELSE 1)       \* with a second announcement: one error each
+                                     /\ \A e \in 1..Len(log[i].events) : log[i].events[e].err)
      /\ (i > 1 => log[i - 1].stored \subseteq log[i].stored)
 (* C04, second sentence: once the publisher answers correctly again the next sync succeeds and ends
    where a fault-free run ends                                                                    *)
@@ -202,6 +221,14 @@ Converges == pc = "done" =>
     /\ last.latest = N /\ last.stored = {x \in 1..N : Within(x)}
 AnnounceRetryPossible == (cfg.trigger = "announce" /\ pc = "start" /\ phase > 1 /\ log[phase - 1].result = "error") => ~cached
 
+(* Legacy publishers: the client's switch to path-less URLs outlives the sync (the subscriber keeps the publisher's sync client),
+   and it is made when the repeated request is answered with status 200 -- before the body is looked at.  So a sync probes
+   (one request under the IPNI path, answered 404) exactly when it makes a request and no earlier sync's first request got a 200. *)
+Status200(k) == k \notin {"s400", "s500", "s403", "s404", "reset", "stall", "cancel"}
+MadeRequests(j) == log[j].result \notin {"dropped", "nothing"}
+FirstReq200(j) == MadeRequests(j) /\ (j > Len(cfg.faults) \/ cfg.faults[j].at # 1 \/ Status200(cfg.faults[j].kind))
+Probes(i) == IF cfg.mode = "legacy" /\ MadeRequests(i) /\ ~\E j \in 1..(i - 1) : FirstReq200(j) THEN 1 ELSE 0
+
 ExportBehaviour == (EXPORT /\ pc = "done") =>
-   Emit("c04_behaviours.ndjson", [cfg |-> cfg, syncs |-> [i \in 1..Len(log) |-> [log[i] EXCEPT !.stored = Cardinality(@)]]])
+   Emit("c04_behaviours.ndjson", [cfg |-> cfg, syncs |-> [i \in 1..Len(log) |-> [probes |-> Probes(i)] @@ [log[i] EXCEPT !.stored = Cardinality(@)]]])
 =============================================================================
